@@ -159,13 +159,13 @@ func genResp(r *Rng, tier string, p *Plan) {
 
 type respReq struct {
 	droppedBefore, droppedAfter float64 // the router's "dropped because the queue was full" counter around the request
-	op      Op
-	req     *bRequest
-	kind    string
-	markers []string
-	invalid map[string]bool
-	raw     *http.Request // for OTLP
-	envKey  bool
+	op                          Op
+	req                         *bRequest
+	kind                        string
+	markers                     []string
+	invalid                     map[string]bool
+	raw                         *http.Request // for OTLP
+	envKey                      bool
 }
 
 func otlpTraceBody(markers []string, seed uint64, first int) []byte {
@@ -367,13 +367,13 @@ func runResp(t *testing.T, p *Plan) *Outcome {
 				seen += hnyBy[mk] + peerBy[mk]
 			}
 			body := r.resp.body.String()
-		if !strings.HasPrefix(body, "{") && !strings.HasPrefix(body, "[") {
-			body = fmt.Sprintf("<%d bytes, not JSON>", len(body)) // OTLP status messages embed net/http's timeout wording, which varies
-			if len(r.resp.body.Bytes()) > 0 {
-				body = "<non-JSON body>"
+			if !strings.HasPrefix(body, "{") && !strings.HasPrefix(body, "[") {
+				body = fmt.Sprintf("<%d bytes, not JSON>", len(body)) // OTLP status messages embed net/http's timeout wording, which varies
+				if len(r.resp.body.Bytes()) > 0 {
+					body = "<non-JSON body>"
+				}
 			}
-		}
-		log = append(log, fmt.Sprintf("op#%d %s status=%v seen=%d body=%.80s", rr.op.ID, rr.kind, r.resp.statuses, seen, body))
+			log = append(log, fmt.Sprintf("op#%d %s status=%v seen=%d body=%.80s", rr.op.ID, rr.kind, r.resp.statuses, seen, body))
 			if rr.op.B {
 				out.Probe("body_read_error")
 			}
